@@ -398,6 +398,57 @@ func (g *gen) sop(inBody bool) *SOp {
 	if inBody {
 		defCtx = "define-body"
 	}
+	// receive into a location / a new variable (assigned like any value since commit 177a151: F08-7)
+	if g.chance(0.06) {
+		if g.chance(0.25) && !(inBody && len(g.e) > 9) {
+			t := ty(poolTypes[g.pick(len(poolTypes))])
+			r := g.rexp(t, "arg")
+			if r == nil {
+				return nil
+			}
+			return &SOp{K: "rcv", IsDef: true, L: &LExp{K: "v", X: g.fresh()}, T: t.Src, R: r}
+		}
+		c := g.loc(nil)
+		if c == nil {
+			return nil
+		}
+		r := g.rexp(c.t, "arg")
+		if r == nil {
+			return nil
+		}
+		return &SOp{K: "rcv", L: c.l, T: c.t.Src, R: r}
+	}
+	// two-value type assertion, holding or failing, both forms (new variables per execution, zero value on failure
+	// since commit 2fe0a18: F04-14)
+	if g.chance(0.05) {
+		t := ty(poolTypes[g.pick(len(poolTypes))])
+		r := g.rexp(t, "arg")
+		if r == nil {
+			return nil
+		}
+		o := &SOp{K: "as2", T: t.Src, R: r, Succ: g.chance(0.55)}
+		if g.chance(0.4) {
+			x, okv := g.loc(t), g.loc(ty("bool"))
+			if x != nil && okv != nil && isVar(x.l) && isVar(okv.l) && x.l.X != okv.l.X {
+				o.X, o.Ok = x.l.X, okv.l.X
+				return o
+			}
+		}
+		if inBody && len(g.e) > 10 {
+			return nil
+		}
+		o.IsDef, o.X, o.Ok = true, g.fresh(), g.fresh()
+		if g.chance(0.3) {
+			if g.chance(0.6) {
+				if x := g.sameScopeVar(inBody, t); x >= 0 {
+					o.X, o.Rdx = x, true
+				}
+			} else if x := g.sameScopeVar(inBody, ty("bool")); x >= 0 {
+				o.Ok, o.Rdok = x, true
+			}
+		}
+		return o
+	}
 	switch k := g.pick(100); {
 	case k < 16: // define
 		t := ty(poolTypes[g.pick(len(poolTypes))])
